@@ -416,7 +416,10 @@ func (r *run) features() feat {
 	return ft
 }
 
-func (ft feat) String() string {
+// String is the part of a class signature; Long also names the number of TSM files (outcome classes only).
+func (ft feat) String() string { return fmt.Sprintf("tombstones=%v", ft.tombstones) }
+
+func (ft feat) Long() string {
 	n := fmt.Sprint(ft.nTSM)
 	if ft.nTSM > 2 {
 		n = "3+"
@@ -532,7 +535,7 @@ func execute(c *vlib.Ctx, opsList []string, exports [][2]int) (v verdict, err er
 			} else if cl, same := diff(got, srcPts); !same {
 				add("restore/"+cl+"/"+ft.String(), "source shard reads %s, the shard restored from the full backup reads %s (shard files %s, archive entries %v)", v.srcRead, fmtPoints(got), fileList(r.files), names)
 			}
-			v.outcomes = append(v.outcomes, fmt.Sprintf("restore/%s%s/series=%d", ft, cacheNote, len(srcPts)))
+			v.outcomes = append(v.outcomes, fmt.Sprintf("restore/%s%s/series=%d", ft.Long(), cacheNote, len(srcPts)))
 		}
 	}
 
@@ -643,7 +646,7 @@ func execute(c *vlib.Ctx, opsList []string, exports [][2]int) (v verdict, err er
 		if cl, same := diff(got, want); !same {
 			add("export/"+cl+"/"+ft.String()+","+part, "export of %s: source reads %s, so the export should hold %s, but the shard imported from it reads %s (shard files %s, archive %v)", rng, v.srcRead, fmtPoints(want), fmtPoints(got), fileList(r.files), names)
 		}
-		v.outcomes = append(v.outcomes, fmt.Sprintf("export/%s/%s/points=%d", ft, part, min(npoints(want), 2)))
+		v.outcomes = append(v.outcomes, fmt.Sprintf("export/%s/%s/points=%d", ft.Long(), part, min(npoints(want), 2)))
 	}
 	return v, nil
 }
@@ -682,15 +685,19 @@ func allRanges() [][2]int {
 	return out
 }
 
-// histories of exactly depth d in lexicographic order of the op alphabet.
-func histories(d int, visit func([]string) bool) bool {
+// histories of exactly depth d over the alphabet, in lexicographic order; first restricts the first operation (nil = any).
+func histories(d int, alphabet, first []string, visit func([]string) bool) bool {
 	cur := make([]string, d)
 	var rec func(i int) bool
 	rec = func(i int) bool {
 		if i == d {
 			return visit(append([]string(nil), cur...))
 		}
-		for _, op := range ops {
+		al := alphabet
+		if i == 0 && first != nil {
+			al = first
+		}
+		for _, op := range al {
 			cur[i] = op
 			if !rec(i + 1) {
 				return false
@@ -713,7 +720,7 @@ func hasWrite(h []string) bool {
 func TestCheck(t *testing.T) {
 	vlib.Main(t, &vlib.Check{
 		ID: "C38", Level: "exploration",
-		Rule: "every history of length 1..D (quick D=3: 399 histories; thorough D=4: 2800 histories, then length 5 as far as the budget allows, capped) over the 7 operations {wL: write A@slots0,1 + B@slot0; wH: write A@slots2,3 + B@slot3; wA: (over)write A@slots0-3; dM: delete [slot1,slot2] of all series; dB: delete series B; s: snapshot cache->TSM; c: snapshot + full compaction} " +
+		Rule: "every history of length 1..3 (quick: 399 histories) resp. 1..4 plus every history of length 5 over {wL,wH,dM,s,c} that starts with a write (thorough: 2800 + 1250 histories) over the 7 operations {wL: write A@slots0,1 + B@slot0; wH: write A@slots2,3 + B@slot3; wA: (over)write A@slots0-3; dM: delete [slot1,slot2] of all series; dB: delete series B; s: snapshot cache->TSM; c: snapshot + full compaction} " +
 			"on a fresh bucket (series m,t=a and m,t=b, float field v, 4 time slots in one shard, value = 100*step+10*slot+series so every write is distinguishable); per history: (1) BackupShard(since=0) -> RestoreShard into an empty shard, reads compared; (2) BackupShard(since) for since = T(j), T(j)+30min, j=0..n+1 with file mtimes set by os.Chtimes to the step of their last content change, archive must contain every later-changed *.tsm/*.tombstone file byte-identically; (3) ExportShard for every one of the 10 ranges between slot boundaries -> ImportShard into an empty shard, reads compared with the source points in the range. " +
 			"non-trivial = histories that contain a write (a shard exists); distinct by construction.",
 		Assumptions: []string{
@@ -728,14 +735,20 @@ func TestCheck(t *testing.T) {
 		Run: func(c *vlib.Ctx) {
 			defer func(old uint64) { tsi1.DefaultPartitionN = old }(tsi1.DefaultPartitionN)
 			tsi1.DefaultPartitionN = 1
-			maxD := 3
+			type fam struct {
+				name            string
+				d               int
+				alphabet, first []string
+			}
+			fams := []fam{{"all histories of length 1", 1, ops, nil}, {"all histories of length 2", 2, ops, nil}, {"all histories of length 3", 3, ops, nil}}
 			if c.Thorough() {
-				maxD = 5
+				fams = append(fams, fam{"all histories of length 4", 4, ops, nil},
+					fam{"histories of length 5 over {wL,wH,dM,s,c} that start with a write", 5, []string{"wL", "wH", "dM", "s", "c"}, []string{"wL", "wH"}})
 			}
 			exports := allRanges()
 			var idx int64
-			for d := 1; d <= maxD; d++ {
-				complete := histories(d, func(h []string) bool {
+			for _, fm := range fams {
+				complete := histories(fm.d, fm.alphabet, fm.first, func(h []string) bool {
 					idx++
 					if !c.Mine(idx) {
 						return true
@@ -747,10 +760,9 @@ func TestCheck(t *testing.T) {
 					return true
 				})
 				if !complete {
-					c.Cap(fmt.Sprintf("wall budget: all histories of length < %d complete; length %d visited in lexicographic order up to index %d", d, d, idx))
+					c.Cap(fmt.Sprintf("wall budget: the families before %q are complete; that family was visited in lexicographic order only in part", fm.name))
 					return
 				}
-				c.Note("complete_depth", fmt.Sprint(d))
 			}
 		},
 		Replay: func(c *vlib.Ctx, raw json.RawMessage) (bool, string) {
